@@ -19,10 +19,11 @@ position, yields a 4xx and zero handler calls, and nothing else is possible
 property *is* an extraction failure in the model.
 -/
 import DropshotModel.Extract
+import DropshotModel.JsonBody
 import DropshotProofs.Lemmas.Extract
 
 namespace Dropshot.C10
-open Dropshot Dropshot.Percent Dropshot.Utf8 Dropshot.Extract
+open Dropshot Dropshot.Percent Dropshot.Utf8 Dropshot.Extract Dropshot.JsonBody
 
 /-- A 400-level status. -/
 def Is4xx (s : Nat) : Prop := 400 ≤ s ∧ s < 500
@@ -107,6 +108,74 @@ theorem bad_any_400 {α β γ : Type} (p : Except ExtractErr α) (q : Except Ext
 
 example : handle (extract3 (α := Nat) (β := Nat) (γ := Nat) (.ok 1) (.error (.query .parse)) (.ok 2)) =
     .refused 400 := by decide
+
+/-! ### Malformed JSON, with the codec as the code uses it (finding K10a)
+
+Full-strength statement, **false on the unchanged tree**:
+
+    ∀ fs body e, decodeStrict fs body = .error e → ∃ e', decodeAsIs fs body = .error e'
+
+("a body that is not one JSON value of the type is refused").  The code calls
+`serde_path_to_error::deserialize` on a `serde_json::Deserializer` and never
+`Deserializer::end()`, so what follows the first value is not examined. -/
+
+/-- `{"a":1}x` for `struct { a: u8 }`. -/
+def kBody : Bytes := [123, 34, 97, 34, 58, 49, 125, 120]
+def kFs : List (Bytes × FTy) := [([97], .scalar (.uint 8))]
+
+/-- **Finding K10a (negation witness).**  The body `{"a":1}x` is not JSON, yet
+the decoder as the code stands accepts it (and the handler runs with `a = 1`). -/
+theorem json_trailing_bytes_accepted :
+    decodeAsIs kFs kBody = .ok [([97], .scalar (.nat 1))] ∧ decodeStrict kFs kBody = .error .json ∧
+      trailingGarbage kFs kBody = true := by
+  decide
+
+theorem C10_json_full_fails :
+    ¬ ∀ (fs : List (Bytes × FTy)) (body : Bytes) (e : BodyErr),
+      decodeStrict fs body = .error e → ∃ e', decodeAsIs fs body = .error e' := by
+  intro h
+  obtain ⟨e', he⟩ := h kFs kBody .json json_trailing_bytes_accepted.2.1
+  rw [json_trailing_bytes_accepted.1] at he
+  cases he
+
+/-- Outside the excluded region (`trailingGarbage`: a complete well-typed value
+followed by non-whitespace), whatever RFC 8259 + the type refuse, the code's
+decoder refuses too. -/
+theorem bad_json_refused_partial (fs : List (Bytes × FTy)) (body : Bytes) (e : BodyErr)
+    (hstrict : decodeStrict fs body = .error e) (hK : trailingGarbage fs body = false) :
+    ∃ e', decodeAsIs fs body = .error e' := by
+  unfold decodeStrict at hstrict
+  unfold trailingGarbage at hK
+  unfold decodeAsIs
+  cases hp : parseFirst body with
+  | none => exact ⟨_, rfl⟩
+  | some p =>
+    obtain ⟨v, rest⟩ := p
+    simp only [hp] at hstrict hK
+    cases hd : deStructJ fs v with
+    | error e1 => exact ⟨.decode e1, by simp [hd]⟩
+    | ok x =>
+      simp only [hd] at hstrict hK
+      by_cases hr : skipWs rest ≠ []
+      · simp [hr] at hK
+      · simp [hr] at hstrict
+
+/-- … and so the request is answered 400 without a handler call. -/
+theorem bad_json_400_partial (fs : List (Bytes × FTy)) (form : Bytes → Except DeErr Val)
+    (cap : Nat) (hdr : Option Bytes) (body : Bytes) (e : BodyErr)
+    (hct : requestCT hdr = .ok .json) (hcap : body.length ≤ cap)
+    (hstrict : decodeStrict fs body = .error e) (hK : trailingGarbage fs body = false) :
+    handle (extractBodyE (decodeAsIs fs) form .json cap hdr body) = .refused 400 ∧
+      (handle (extractBodyE (decodeAsIs fs) form .json cap hdr body)).handlerCalls = 0 := by
+  obtain ⟨e', he⟩ := bad_json_refused_partial fs body e hstrict hK
+  have : ¬ body.length > cap := by omega
+  exact bad_body_400 (decodeAsIs fs) form .json cap hdr body e' (by simp [loadBody, this, hct, he])
+
+/-- Non-vacuity: a truncated body is refused by both readings and is not in the
+excluded region (`{"a":1`). -/
+example : decodeStrict kFs [123, 34, 97, 34, 58, 49] = .error .json ∧
+    trailingGarbage kFs [123, 34, 97, 34, 58, 49] = false := by decide
+
 
 /-! ### Content types -/
 
